@@ -6,7 +6,7 @@ import sys, os, json, subprocess, shutil, re
 pid, i = sys.argv[1], sys.argv[2]
 checks = sys.argv[3:] or [pid]
 rnd = int(os.environ.get("ROUND", "1"))
-src = {1: "/tmp/mut/out-%s/%s", 2: "/tmp/mut/o2-%s/%s", 3: "/tmp/mut/o3-%s/%s"}[rnd] % (pid, i)
+src = {1: "/tmp/mut/out-%s/%s", 2: "/tmp/mut/o2-%s/%s", 3: "/tmp/mut/o3-%s/%s", 4: "/tmp/mut/o4-%s/%s"}[rnd] % (pid, i)
 i = str(int(i) + 2 * (rnd - 1))
 slot = "%s-%s" % (pid, i)
 sv = subprocess.run(["/verif/tools/seedverify.sh", src, slot], capture_output=True, text=True).stdout
